@@ -1,0 +1,420 @@
+//go:build verif
+
+// Contracts for properties C15 (drop is a replicated transaction; recreation continues the log) and
+// C16 (import replaces a database atomically; export returns the exact current image).
+// Checked by govc. Comment-only file.
+package litefs
+
+// ===========================================================================
+// db.go — Drop (C15)
+//
+// Protocol automaton of Drop. `stage` is the durable-before-visible order:
+//   0 --Create tmp--> 1 --EncodeHeader(tombstone)--> 2 --SetPostApplyChecksum(flag)--> 3 --Close--> 4 --fsync--> 5
+//   --[Client.Commit when a remote halt lock is held]--> 5 --Writeable()==true--> rename 6 --dir fsync--> 7
+//   --Remove DB 8 --Remove JOURNAL 9 --Remove WAL 10 --Remove SHM 11 --setPos--> 12 --MarkDirty--> 13
+// `w` is true only when Writeable() returned true AFTER the last forwarding call (Client.Commit resets it).
+
+//@ pred walReset(db *DB) = db.wal.offset == 0 && db.wal.chksum1 == 0 && db.wal.chksum2 == 0 &&
+//@      db.wal.frameOffsets != nil && (forall p uint32 :: !has(db.wal.frameOffsets, p)) &&
+//@      db.wal.chksums != nil && (forall p uint32 :: !has(db.wal.chksums, p))
+
+// Store notifications: they touch subscriber state only (their mod-set is computed by the engine; no DB field is in it).
+//@ func (s *Store) MarkDirty [C15]
+//@   requires  s != nil
+//@ func (s *Store) NotifyEvent [C15]
+//@   requires  s != nil
+
+//@ func (db *DB) Drop [C15]
+//@   requires  dbWF(db) && typeis(aload(db.remoteHaltLock), *HaltLock)
+//@   requires  as(aload(db.remoteHaltLock), *HaltLock) != nil ==> db.store.Client != nil
+//@   ghost w bool = false
+//@   ghost stage int = 0
+//@   on call OS.Create op "DROP:LTX" assert stage == 0 ; then stage = (ret1 == nil ? 1 : stage)
+//@   on call ltx.Encoder.EncodeHeader assert stage == 1 && arg1.Version == 1 && arg1.Commit == 0 && arg1.MinTXID == old(posOf(db)).TXID + 1 && arg1.MaxTXID == arg1.MinTXID &&
+//@        arg1.PreApplyChecksum == old(posOf(db)).PostApplyChecksum && arg1.PageSize == db.pageSize ; then stage = (ret0 == nil ? 2 : stage)
+//@   on call ltx.Encoder.EncodePage assert false
+//@   on call ltx.Encoder.SetPostApplyChecksum assert stage == 2 && arg1 == ltx.ChecksumFlag ; then stage = 3
+//@   on call ltx.Encoder.Close assert stage == 3 ; then stage = (ret0 == nil ? 4 : stage)
+//@   on call os.File.Sync assert stage == 4 ; then stage = (ret0 == nil ? 5 : stage)
+//@   on call Client.Commit assert stage == 5 && arg3 == db.name ; then w = false
+//@   on call DB.Writeable assert stage == 5 ; then w = ret0
+//@   on call OS.Rename op "DROP:LTX" assert w && stage == 5 ; then stage = (ret0 == nil ? 6 : stage)
+//@   on call internal.Sync assert stage == 6 ; then stage = (ret0 == nil ? 7 : stage)
+//@   on call OS.Remove op "DROP:DB" assert stage == 7 ; then stage = 8
+//@   on call OS.Remove op "DROP:JOURNAL" assert stage == 8 ; then stage = 9
+//@   on call OS.Remove op "DROP:WAL" assert stage == 9 ; then stage = 10
+//@   on call OS.Remove op "DROP:SHM" assert stage == 10 ; then stage = 11
+//@   on call DB.setPos assert stage == 11 ; then stage = (ret0 == nil ? 12 : stage)
+//@   on call DB.setPos assert arg1.TXID == old(posOf(db)).TXID + 1
+//@   on call DB.setPos assert arg1.PostApplyChecksum == ltx.ChecksumFlag
+//@   on call DB.setPos assert dbModeIs(db, DBModeRollback)
+//@   on call DB.setPos assert aload(db.pageN) == 0
+//@   on call DB.setPos assert walReset(db)
+//@   on call Store.MarkDirty assert stage == 12 && arg1 == db.name ; then stage = 13
+//@   ensures   err == nil ==> stage == 13 && w
+//@   ensures   err == nil ==> posOf(db).TXID == old(posOf(db)).TXID + 1 && posOf(db).PostApplyChecksum == ltx.ChecksumFlag
+//@   ensures   err == nil ==> dbModeIs(db, DBModeRollback) && aload(db.pageN) == 0 && walReset(db)
+//@   ensures   stage < 11 ==> posOf(db) == old(posOf(db))
+//@   ensures   dbWF(db)
+// FINDING F-C15-1 (fails on the unchanged code): a dropped database must be re-creatable "under the same name ... and
+// replicate normally" for every history, including one that recreates it with a different page size. The DB object
+// is reused by Store.CreateDB, and db.pageSize is only ever assigned when it is zero — Drop must clear it.
+//@   ensures   err == nil ==> db.pageSize == 0
+//@   mergeexits
+//@   nopanic
+
+// ===========================================================================
+// db.go — ApplyLTXNoLock (C15, C16; replica side of every transaction)
+//
+//   stage 0 --Open LTX--> 1 --DecodeHeader--> 2 --(every DecodePage is followed by writeDatabasePage(dbFile,pgno,pageBuf,true))
+//   --Decoder.Close (file checksum verified)--> 3 --truncateDatabase(Commit) | 4 x Remove (tombstone)--> 4
+//   --pageN/mode stored; checksum(Commit) == trailer.PostApplyChecksum--> 5 --setPos(MaxTXID, that checksum)--> 6
+//   --updateSHM--> 7 --[InvalidateDB iff snapshot]--> MarkDirty 8
+// `failed` records that some callee reported an error (I/O or decoding); Exit(99) is legal only then, or on the
+// deliberate checksum-mismatch verdict, and only when fatalOnError.
+
+//@ func field.Store.Exit
+//@   pure
+
+// Frames for the two page-level writers (merged with their contracts in zz_contracts_verif.go): in memory they only
+// touch the page/block checksum cache.
+//@ func (db *DB) writeDatabasePage [C15,C16]
+//@   modifies  db.chksums.pages, contents(db.chksums.pages), contents(db.chksums.blocks)
+//@ func (db *DB) truncateDatabase [C15,C16]
+//@   modifies  db.chksums.pages, contents(db.chksums.pages), contents(db.chksums.blocks)
+
+//@ func (db *DB) updateSHM [C15,C16]
+//@   requires db != nil
+//@   modifies class("C|atomic_bool")
+
+//@ func (db *DB) ApplyLTXNoLock [C15,C16]
+//@   requires  dbWF(db) && walKeysPositive(db)
+// A-DBSIZE (unchecked, listed): the commit size of an LTX header stays below 2^32 - 256 pages (as in CommitJournal)
+//@   on call DB.checksum assume arg1 <= 0xffffff00
+//@   requires  fatalOnError ==> db.store.Exit != nil
+//@   ghost stage int = 0
+//@   ghost failed bool = false
+//@   ghost decoded int = 0
+//@   ghost written int = 0
+//@   ghost rm int = 0
+//@   ghost commit uint32 = 0
+//@   ghost inval bool = false
+//@   ghost post ltx.Checksum = 0
+//@   ghost psMismatch bool = false
+//@   ghost sawP1 bool = false
+//@   ghost everWal bool = false
+//@   on call DB.writeDatabasePage ; then sawP1 = sawP1 || arg2 == 1, everWal = everWal || (arg2 == 1 && arg3[18] == 2 && arg3[19] == 2)
+//@   on call OS.Open op "APPLYLTX:LTX" assert stage == 0 ; then stage = (ret1 == nil ? 1 : stage)
+//@   on call ltx.Decoder.DecodeHeader assert stage == 1 ; then stage = (ret0 == nil ? 2 : stage), commit = arg0.header.Commit
+//@   on call OS.OpenFile op "APPLYLTX:DB" assert stage == 2 && commit > 0
+//@   on call ltx.Decoder.DecodePage assert stage == 2 && written == decoded && arg0 == dec && sameArray(arg2, pageBuf) ; then decoded = (ret0 == nil ? decoded + 1 : decoded), failed = failed || (ret0 != nil && ret0 != io.EOF)
+//@   on call DB.writeDatabasePage assert stage == 2 && written == decoded - 1 && arg1 == dbFile && arg2 == phdr.Pgno && sameArray(arg3, pageBuf) && arg4 == true ; then written = written + 1, failed = failed || ret0 != nil
+//@   on call DB.writeDatabasePage ; then psMismatch = psMismatch || len(arg3) != int(db.pageSize)
+//@   on call ltx.Decoder.Close assert stage == 2 && written == decoded ; then stage = (ret0 == nil ? 3 : stage), failed = failed || ret0 != nil
+//@   on call DB.truncateDatabase assert stage == 3 && commit > 0 && arg1 == dbFile && arg2 == commit ; then stage = (ret0 == nil ? 4 : stage), failed = failed || ret0 != nil
+//@   on call OS.Remove op "APPLYLTX:DROP:DB" assert stage == 3 && commit == 0 && rm == 0 ; then rm = 1, failed = failed || ret0 != nil
+//@   on call OS.Remove op "APPLYLTX:DROP:JOURNAL" assert rm == 1 ; then rm = 2, failed = failed || ret0 != nil
+//@   on call OS.Remove op "APPLYLTX:DROP:WAL" assert rm == 2 ; then rm = 3, failed = failed || ret0 != nil
+//@   on call OS.Remove op "APPLYLTX:DROP:SHM" assert rm == 3 ; then rm = 4, stage = 4, failed = failed || ret0 != nil
+//@   on call DB.checksum assert stage == 4 && arg1 == commit && aload(db.pageN) == commit && (commit == 0 ==> dbModeIs(db, DBModeRollback) && rm == 4) ; then stage = (ret1 == nil ? 5 : stage), post = ret0, failed = failed || ret1 != nil
+//@   on call DB.setPos assert stage == 5 && arg1.TXID == dec.header.MaxTXID && arg1.PostApplyChecksum == dec.trailer.PostApplyChecksum && arg1.PostApplyChecksum == post ; then stage = (ret0 == nil ? 6 : stage), failed = failed || ret0 != nil
+//@   on call DB.updateSHM assert stage == 6 ; then stage = (ret0 == nil ? 7 : stage), failed = failed || ret0 != nil
+//@   on call Invalidator.InvalidateDB assert stage == 7 && dec.header.MinTXID == 1 && arg0 == db ; then inval = (ret0 == nil), failed = failed || ret0 != nil
+//@   on call Store.MarkDirty assert stage == 7 && arg1 == db.name && (dec.header.MinTXID == 1 && db.store.Invalidator != nil ==> inval) ; then stage = 8
+//@   on call field.Store.Exit assert fatalOnError && stage >= 2 && arg0 == 99
+//@   on call field.Store.Exit assert failed || (stage == 5 && post != dec.trailer.PostApplyChecksum)
+// FINDING F-C16-2/F-C15-2 (fails on the unchanged code): the fatal exit is reachable because the LTX page size differs from
+// db.pageSize (writeDatabasePage then refuses the buffer) — not an I/O error.
+//@   on call field.Store.Exit assert !psMismatch
+//@   loop 1 invariant stage == 2 && written == decoded && rm == 0 && !inval && (psMismatch ==> len(pageBuf) != int(db.pageSize))
+//@   loop 1 modifies db.chksums.pages, contents(db.chksums.pages), contents(db.chksums.blocks), class("S|uint8"), class("F|ltx.Decoder|*"), class("F|ltx.PageHeader|*")
+//@   loop 1 invariant dbMode == DBModeWAL <==> (old(dbModeIs(db, DBModeWAL)) || everWal)
+//@   loop 1 invariant dbWF(db)
+//@   loop 1 invariant walKeysPositive(db)
+//@   loop 1 invariant db.pageSize == (old(db.pageSize) == 0 ? dec.header.PageSize : old(db.pageSize))
+//@   loop 1 invariant db.pageSize != 0 && dec != nil && dec.header.Commit == commit && hdr.MinTXID == dec.header.MinTXID
+//@   loop 1 invariant len(pageBuf) == int(dec.header.PageSize) && len(pageBuf) >= 512
+//@   loop 1 invariant (commit > 0 ==> dbFile != nil) && (fatalOnError ==> db.store.Exit != nil) && hf != nil
+// Frame: the page size (first apply only), the checksum cache, the atomic cells (pageN, mode, pos, timestamp, updatingSHM),
+// subscriber notification sets, and objects it allocates (decoder, buffers). Not: lock state, WAL state, dirty page set, store fields.
+//@   modifies  db.pageSize, db.chksums.pages, db.chksums.blocks, class("S|ltx.Checksum"),
+//@             class("C|atomic_uint32"), class("C|interface{}"), class("C|atomic_bool"), class("C|int64"),
+//@             class("M|map[string]struct{}"), class("M|map[*litefs.EventSubscriber]struct{}"),
+//@             class("S|uint8"), class("S|any"), class("S|string"), class("F|ltx.Decoder|*"), class("F|ltx.Header|*"), class("F|ltx.Trailer|*"), class("F|ltx.PageHeader|*")
+//@   ensures   retErr == nil ==> stage == 8 && written == decoded
+//@   ensures   retErr == nil ==> aload(db.pageN) == commit && posOf(db).PostApplyChecksum == post
+//@   ensures   retErr == nil && commit == 0 ==> rm == 4 && dbModeIs(db, DBModeRollback) && posOf(db).PostApplyChecksum == ltx.ChecksumFlag
+//@   ensures   stage < 5 ==> posOf(db) == old(posOf(db))
+//@   ensures   dbWF(db)
+// FINDING F-C15-1, replica side (fails on the unchanged code): the tombstone arm leaves (or even sets) db.pageSize.
+//@   ensures   retErr == nil && commit == 0 ==> db.pageSize == 0
+// CANDIDATE F-C16-3 (fails on the unchanged code): when page 1 is part of the applied transaction (always for an import),
+// the journal mode recorded for the DB object must be the one in that page's header (bytes 18/19 == 2 <=> WAL). The code
+// only ever switches to WAL here, never back to rollback (except for a tombstone).
+//@   ensures   retErr == nil && commit > 0 && sawP1 ==> (dbModeIs(db, DBModeWAL) <==> everWal)
+//@   mergeexits
+//@   nopanic
+
+// ===========================================================================
+// store.go — CreateDB / CreateDBIfNotExists (C15: recreation continues the log)
+//
+// The store remembers a dropped database as a zero-page DB object. CreateDB on such a name reuses that very object
+// (so its position — the tombstone's TXID and ChecksumFlag — is what the next commit continues from); on a
+// non-empty one it refuses with ErrDatabaseExists before touching the file system; on an unknown name it
+// registers a fresh object. The database file is created with O_EXCL. All of it under s.mu.
+
+// NewDB: a fresh, well-formed DB object of the store: rollback mode, zero position, no halt locks, empty WAL index,
+// twelve free advisory locks. The ghost numbering of the locks (locksNumbered, a proof device saying the twelve
+// by-value mutexes are pairwise different objects) cannot be established by executable code: trusted.
+//@ func NewDB [C15,C16,C20]
+//@   requires  store != nil
+//@   ensures   result != nil && fresh(result) && result.store == store && result.name == name && result.path == path && result.os == store.OS
+//@   ensures   result.pageSize == 0 && aload(result.pageN) == 0 && dbModeIs(result, DBModeRollback) && posOf(result).TXID == 0 && posOf(result).PostApplyChecksum == 0
+//@   ensures   typeis(aload(result.remoteHaltLock), *HaltLock) && as(aload(result.remoteHaltLock), *HaltLock) == nil
+//@   ensures   typeis(aload(result.haltLockAndGuard), *haltLockAndGuard) && as(aload(result.haltLockAndGuard), *haltLockAndGuard) == nil
+//@   ensures   result.wal.frameOffsets != nil && result.wal.chksums != nil && result.guardSets.m != nil && result.dirtyPageSet != nil
+//@   ensures   store.OS != nil ==> dbWF(result)
+//@   ensures   wfMutex(addr(result.pendingLock)) && wfMutex(addr(result.sharedLock)) && wfMutex(addr(result.reservedLock)) &&
+//@        wfMutex(addr(result.writeLock)) && wfMutex(addr(result.ckptLock)) && wfMutex(addr(result.recoverLock)) &&
+//@        wfMutex(addr(result.read0Lock)) && wfMutex(addr(result.read1Lock)) && wfMutex(addr(result.read2Lock)) &&
+//@        wfMutex(addr(result.read3Lock)) && wfMutex(addr(result.read4Lock)) && wfMutex(addr(result.dmsLock))
+//@   trusts    locksNumbered(result)
+//@   nopanic
+// ASSUMED (untagged, hence never checked): the frame of DB.Open. Open is a ~50-line driver over recovery code whose
+// computed mod-set is "everything" (dynamic calls); for its two callers here only this matters: it works on the
+// DB object it is given (its fields, nested checksum/WAL/guard-set structs, atomic cells) and on subscriber
+// dirty-sets — it does not touch the store's name->DB map, the store's fields, or package-level variables.
+//@ func (db *DB) Open
+//@   requires db != nil
+//@   modifies fields(db), db.chksums, db.wal, db.guardSets, class("C|atomic_uint32"), class("C|atomic_bool"), class("C|any"),
+//@             class("M|map[string]struct{}"), class("M|map[*litefs.EventSubscriber]struct{}"), class("M|map[uint32]int64"), class("S|ltx.Checksum")
+//@   ensures  db.store == old(db.store) && db.name == old(db.name)
+//@ func (s *Store) markDirty [C15]
+//@   requires s != nil
+
+//@ func (s *Store) CreateDB [C15]
+//@   requires  s != nil && s.OS != nil && s.dbs != nil
+//@   requires  storeDBCountMetric != nil
+//@   ghost held bool = false
+//@   ghost opened bool = false
+//@   on call sync.Mutex.Lock assert !held ; then held = true
+//@   on call sync.Mutex.Unlock assert held ; then held = false
+//@   on call DB.PageN assert held
+//@   on call OS.MkdirAll op "CREATDEDB" assert held && (old(s.dbs[name]) == nil || aload(old(s.dbs[name]).pageN) == 0)
+//@   on call OS.OpenFile op "CREATDEDB" assert held && !opened && arg2 == os.O_RDWR|os.O_CREATE|os.O_EXCL|os.O_TRUNC ; then opened = (ret1 == nil)
+//@   on call NewDB assert held && opened && old(s.dbs[name]) == nil && arg0 == s && arg1 == name
+//@   on call DB.Open assert held && old(s.dbs[name]) == nil
+//@   on call Store.markDirty assert held && opened && arg1 == name
+//@   ensures   !held
+//@   ensures   old(s.dbs[name]) != nil && aload(old(s.dbs[name]).pageN) > 0 ==> err == ErrDatabaseExists && db == nil && f == nil && !opened
+//@   ensures   err == nil ==> opened && db != nil && f != nil && s.dbs[name] == db
+//@   ensures   err == nil && old(s.dbs[name]) != nil ==> db == old(s.dbs[name]) && posOf(db) == old(posOf(s.dbs[name])) && aload(db.pageN) == 0
+//@   ensures   err == nil && old(s.dbs[name]) == nil ==> fresh(db) && db.store == s && db.name == name
+//@   ensures   err != nil ==> db == nil && f == nil
+//@   ensures   err != nil && old(s.dbs[name]) != nil ==> s.dbs[name] == old(s.dbs[name])
+//@   ensures   forall k string :: k != name ==> s.dbs[k] == old(s.dbs[k])
+//@   nopanic
+
+// CreateDBIfNotExists (replica side and HTTP import): an existing object — including a remembered dropped one — is
+// returned as is, without touching the file system; otherwise a fresh object is opened and registered.
+//@ func (s *Store) CreateDBIfNotExists [C15,C16]
+//@   requires  s != nil && s.OS != nil && s.dbs != nil
+//@   requires  storeDBCountMetric != nil
+//@   ghost held bool = false
+//@   on call sync.Mutex.Lock assert !held ; then held = true
+//@   on call sync.Mutex.Unlock assert held ; then held = false
+//@   on call OS.MkdirAll op "CREATDEDBIFNOTEXISTS" assert held && old(s.dbs[name]) == nil
+//@   on call OS.WriteFile op "CREATDEDBIFNOTEXISTS" assert held && old(s.dbs[name]) == nil && len(arg2) == 0
+//@   on call NewDB assert held && old(s.dbs[name]) == nil && arg0 == s && arg1 == name
+//@   on call Store.markDirty assert held && arg1 == name
+//@   ensures   !held
+//@   ensures   old(s.dbs[name]) != nil ==> result0 == old(s.dbs[name]) && err == nil && posOf(result0) == old(posOf(s.dbs[name]))
+//@   ensures   err == nil ==> result0 != nil && s.dbs[name] == result0
+//@   ensures   err == nil && old(s.dbs[name]) == nil ==> fresh(result0) && result0.store == s && result0.name == name
+//@   ensures   err != nil ==> result0 == nil
+//@   ensures   forall k string :: k != name ==> s.dbs[k] == old(s.dbs[k])
+//@   nopanic
+
+// ===========================================================================
+// litefs.go — readSQLiteDatabaseHeader (C16, C15)
+//
+// Exactly 100 bytes are consumed on success and returned; the page size is the big-endian uint16 at bytes 16-17 with
+// the SQLite convention 1 => 65536; the page count is the big-endian uint32 at bytes 28-31; the versions are bytes
+// 18 and 19. Nothing validates the page size or the page count here (importToLTX relies on the LTX encoder for that).
+// On any failure the header is all zero and the bytes read so far are returned.
+
+//@ spec func be16(b []byte, i int) uint32 = (uint32(b[i]) << 8) | uint32(b[i+1])
+//@ spec func be32(b []byte, i int) uint32 = (uint32(b[i]) << 24) | (uint32(b[i+1]) << 16) | (uint32(b[i+2]) << 8) | uint32(b[i+3])
+
+//@ func readSQLiteDatabaseHeader [C16,C15]
+//@   requires  r != nil
+//@   modifies
+//@   ensures   err == nil ==> len(data) == 100 && fresh(data)
+//@   ensures   err == nil ==> hdr.PageSize == (be16(data, 16) == 1 ? 65536 : be16(data, 16))
+//@   ensures   err == nil ==> hdr.PageN == be32(data, 28)
+//@   ensures   err == nil ==> hdr.WriteVersion == int(data[18]) && hdr.ReadVersion == int(data[19])
+// a short or unreadable input leaves the header zero; a 100-byte input with a bad magic or page size is refused (the header
+// value returned with the error is unspecified)
+//@   ensures   err != nil && len(data) < 100 ==> hdr.PageSize == 0 && hdr.PageN == 0 && hdr.WriteVersion == 0 && hdr.ReadVersion == 0
+//@   ensures   len(data) <= 100
+//@   nopanic
+
+// ===========================================================================
+// db.go — importToLTX (C16)
+//
+//   stage 0 --readSQLiteDatabaseHeader ok--> 1 --Create tmp--> 2 --EncodeHeader--> 3 --(pages)--> SetPostApplyChecksum 4
+//   --Close--> 5 --fsync--> 6 --close file--> 7 --rename--> 8 --dir fsync--> 9
+// Header: PageSize/Commit from the SQLite header (bytes 16-17 with 1 => 65536; bytes 28-31), TXID = pos+1,
+// PreApplyChecksum = current post-apply checksum. Pages: every page 1..PageN is read in order; every page except
+// the lock page is encoded exactly once, in order (the encoder's prevPgno is the witness), page 1 with bytes 24-27
+// (file change counter) and 40-43 (schema cookie) zeroed; the rolling checksum handed to the encoder is the XOR of
+// the encoded pages' checksums. A short read returns before anything is renamed.
+
+// the last page number encoded once all pages below `next` have been processed
+//@ spec func lastEncoded(next uint32, lock uint32) uint32 = (next - 1 == lock ? next - 2 : next - 1)
+
+//@ func (db *DB) importToLTX [C16]
+//@   requires  dbWF(db) && r != nil
+//@   ghost stage int = 0
+//@   ghost short bool = false
+//@   ghost ps uint32 = 0
+//@   ghost pn uint32 = 0
+//@   on call readSQLiteDatabaseHeader assert stage == 0 ; then stage = (ret2 == nil ? 1 : stage), ps = ret0.PageSize, pn = ret0.PageN
+//@   on call OS.Create op "IMPORTTOLTX" assert stage == 1 ; then stage = (ret1 == nil ? 2 : stage)
+//@   on call ltx.Encoder.EncodeHeader assert stage == 2 && arg1.Version == 1 && arg1.PageSize == ps && arg1.Commit == pn &&
+//@        arg1.MinTXID == old(posOf(db)).TXID + 1 && arg1.MaxTXID == arg1.MinTXID && arg1.PreApplyChecksum == old(posOf(db)).PostApplyChecksum ; then stage = (ret0 == nil ? 3 : stage)
+//@   on call io.ReadFull assert stage == 3 && sameArray(arg1, buf) && len(arg1) == int(ps) ; then short = short || ret1 != nil
+//@   on call ltx.Encoder.EncodePage assert stage == 3 && !short && arg1.Pgno == pgno && pgno != ltx.LockPgno(ps) && sameArray(arg2, buf) && len(arg2) == int(ps)
+//@   on call ltx.Encoder.EncodePage assert pgno == 1 ==> buf[24] == 0 && buf[25] == 0 && buf[26] == 0 && buf[27] == 0 && buf[40] == 0 && buf[41] == 0 && buf[42] == 0 && buf[43] == 0
+//@   on call ltx.Encoder.SetPostApplyChecksum assert stage == 3 && !short && arg0.prevPgno == lastEncoded(pn + 1, ltx.LockPgno(ps)) && arg1 == pos.PostApplyChecksum ; then stage = 4
+//@   on call ltx.Encoder.Close assert stage == 4 ; then stage = (ret0 == nil ? 5 : stage)
+//@   on call os.File.Sync assert stage == 5 ; then stage = (ret0 == nil ? 6 : stage)
+//@   on call os.File.Close ; then stage = (stage == 6 && ret0 == nil ? 7 : stage)
+//@   on call OS.Rename op "IMPORTTOLTX" assert stage == 7 && !short ; then stage = (ret0 == nil ? 8 : stage)
+//@   on call internal.Sync assert stage == 8 ; then stage = (ret0 == nil ? 9 : stage)
+//@   loop 1 invariant stage == 3 && !short && enc != nil && enc.state == "page" && enc.header.PageSize == ps && enc.header.Commit == pn && hdr.PageSize == ps && hdr.PageN == pn
+//@   loop 1 invariant lockPgno == ltx.LockPgno(ps) && len(buf) == int(ps) && ps >= 512 && ps <= 65536 && r != nil && f != nil && dbWF(db)
+// (pgno wraps to 0 only after 2^32-1 pages were read with PageN == 0xffffffff; the encoder then refuses page 0)
+//@   loop 1 invariant (pgno >= 1 && pgno - 1 <= pn && enc.prevPgno == lastEncoded(pgno, lockPgno)) || (pgno == 0 && pn == 0xffffffff)
+//@   loop 1 invariant pos.TXID == old(posOf(db)).TXID + 1 && (enc.prevPgno == 0 ? pos.PostApplyChecksum == 0 : pos.PostApplyChecksum & ltx.ChecksumFlag != 0)
+//@   modifies  class("F|ltx.Encoder|*"), class("F|ltx.Header|*"), class("F|ltx.Trailer|*"), class("S|uint8")
+//@   ensures   err == nil ==> stage == 9 && !short
+//@   ensures   err == nil ==> result0.TXID == old(posOf(db)).TXID + 1
+//@   ensures   err == nil ==> result0.PostApplyChecksum & ltx.ChecksumFlag != 0
+//@   ensures   err != nil ==> result0.TXID == 0 && result0.PostApplyChecksum == 0
+//@   ensures   short ==> err != nil && stage < 8
+// FINDING F-C16-2 (fails on the unchanged code): the LTX made durable here is applied with fatalOnError right after
+// (Import); it must be one ApplyLTXNoLock accepts — its page size must be the database's (or the database has none yet).
+//@   ensures   stage >= 8 ==> db.pageSize == 0 || db.pageSize == ps
+//@   nopanic
+
+// ===========================================================================
+// db.go — write-lock acquisition frames, TruncateWAL, Import (C16)
+
+// Frame of TryAcquireWriteLock (merged with its contract in zz_contracts_verif.go): lock state only
+// (mutex counters/holders, guards, the fresh guard set, the ghost shared-holder sets).
+//@ func (db *DB) TryAcquireWriteLock [C16]
+//@   modifies  class("F|litefs.RWMutex|*"), class("F|litefs.RWMutexGuard|*"), class("F|litefs.GuardSet|*"), class("G|litefs.RWMutex.S")
+
+// TruncateWAL: only to zero; the file is truncated through the OS layer before the in-memory WAL page maps are replaced
+// by empty ones; nothing else changes; on failure nothing in memory changes.
+//@ func (db *DB) TruncateWAL [C16]
+//@   requires  db != nil && db.os != nil
+//@   ghost truncated bool = false
+//@   on call OS.Truncate op "TRUNCATEWAL" assert size == 0 && arg2 == 0 && !truncated ; then truncated = (ret0 == nil)
+//@   modifies  db.wal.frameOffsets, db.wal.chksums
+//@   ensures   err == nil ==> truncated && size == 0
+//@   ensures   err == nil ==> db.wal.frameOffsets != nil && (forall p uint32 :: !has(db.wal.frameOffsets, p)) && db.wal.chksums != nil && (forall p uint32 :: !has(db.wal.chksums, p))
+//@   ensures   err != nil ==> unchanged(db.wal.frameOffsets, db.wal.chksums)
+//@   nopanic
+
+// Import. `accepted` = the input is known acceptable (importToLTX returned nil: header read, every page read, LTX
+// durable). C16: "an import that cannot be applied fails without changing the database, without stopping the node":
+//  (a) no state-changing step may precede `accepted`: jEarly / wEarly record that invalidateJournal / TruncateWAL ran
+//      before it; `ensures !jEarly`, `ensures !wEarly` FAIL on the unchanged code (finding F-C16-1);
+//  (b) the fatal apply is reached only with an accepted input, on the primary, under the write lock, and the lock is
+//      released on every path.
+//@ func (db *DB) Import [C16]
+//@   requires  dbWF(db) && locksWF(db) && walKeysPositive(db) && ctx != nil && r != nil && db.store.Exit != nil
+//@   ghost prim bool = false
+//@   ghost locked bool = false
+//@   ghost unlocked bool = false
+//@   ghost accepted bool = false
+//@   ghost jEarly bool = false
+//@   ghost wEarly bool = false
+//@   on call Store.IsPrimary assert !locked ; then prim = ret0
+//@   on call DB.AcquireWriteLock assert prim && !locked ; then locked = (ret1 == nil)
+//@   on call DB.invalidateJournal assert locked && !unlocked && arg1 == JournalModePersist ; then jEarly = jEarly || !accepted
+//@   on call DB.TruncateWAL assert locked && !unlocked && arg2 == 0 ; then wEarly = wEarly || !accepted
+//@   on call DB.importToLTX assert locked && !unlocked && !accepted ; then accepted = (ret1 == nil)
+//@   on call DB.ApplyLTXNoLock assert locked && !unlocked && accepted && arg2 == true
+//@   on call GuardSet.Unlock assert locked && !unlocked ; then unlocked = true
+//@   ensures   !prim ==> err == ErrReadOnlyReplica && !locked
+//@   ensures   locked ==> unlocked
+//@   ensures   err == nil ==> accepted
+// FINDING F-C16-1 (both fail on the unchanged code): the journal is invalidated and the WAL truncated before the input is read.
+//@   ensures   !jEarly
+//@   ensures   !wEarly
+//@   ensures   !accepted ==> posOf(db) == old(posOf(db)) && aload(db.pageN) == old(aload(db.pageN)) && db.pageSize == old(db.pageSize)
+//@   mergeexits
+//@   nopanic
+
+// ===========================================================================
+// db.go — Export (C16): snapshot-style read of the database file with the WAL overlay
+//
+// Frames of the blocking lock operations (merged with their contracts in zz_contracts_verif.go): lock state only.
+//@ func (g *RWMutexGuard) RLock [C16]
+//@   modifies  g.state, g.rw.sharedN, g.rw.excl, g.rw.S
+//@   loop 1 modifies g.state, g.rw.sharedN, g.rw.excl, g.rw.S
+//@ func (g *RWMutexGuard) Lock [C16]
+//@   modifies  g.state, g.rw.sharedN, g.rw.excl, g.rw.S
+//@   loop 1 modifies g.state, g.rw.sharedN, g.rw.excl, g.rw.S
+
+// State-level view of the guards Export holds while it reads the files.
+//@ pred gsh(g *RWMutexGuard) = g.state == RWMutexStateShared
+//@ pred gun(g *RWMutexGuard) = g.state == RWMutexStateUnlocked
+//@ pred exportReadLocks(gs *GuardSet) = gsh(addr(gs.shared)) && gsh(addr(gs.ckpt)) && gsh(addr(gs.recover)) &&
+//@      gsh(addr(gs.read0)) && gsh(addr(gs.read1)) && gsh(addr(gs.read2)) && gsh(addr(gs.read3)) && gsh(addr(gs.read4)) &&
+//@      gun(addr(gs.pending)) && gun(addr(gs.write))
+
+// Export: (1) the position, page size, page count and WAL overlay are sampled while holding SHARED (and, in WAL mode,
+// the exclusive WAL write lock); (2) every file open/read happens while holding SHARED + CKPT + RECOVER + READ0..4 shared
+// (no checkpoint, no writer truncation can interleave) and with PENDING and WRITE released; (3) page k is read with one
+// Seek to the sampled WAL frame offset + 24 (frame header) of the WAL file if the overlay has the page, else to
+// (k-1)*pageSize of the database file, followed by one full read of pageSize bytes into the page buffer, and exactly
+// that buffer is written to dst, pages in order 1..pageN, nothing else is written; (4) success => all pageN pages were
+// written and the returned position is the sampled one; (5) the guard set is released on every path; (6) position,
+// page count, page size and the WAL overlay of the DB object are not changed.
+// The well-formedness preconditions of the twelve lock operations (cardinality reasoning of C12) are thorough-tier.
+// (pgno is a uint32: with pageN == 0xffffffff the loop would not terminate; the invariant carries that case explicitly.)
+//@ func (db *DB) Export [C16]
+//@   requires  dbWF(db) && locksWF(db) && ctx != nil && dst != nil
+//@   thorough  call/litefs.GuardSet.Unlock/pre
+//@   thorough  call/litefs.RWMutexGuard.RLock/pre
+//@   thorough  call/litefs.RWMutexGuard.Lock/pre
+//@   thorough  call/litefs.RWMutexGuard.Unlock/pre
+//@   ghost sampled bool = false
+//@   ghost sought bool = false
+//@   ghost readok bool = false
+//@   ghost written int = 0
+//@   ghost unlocked bool = false
+//@   on call DB.Pos assert !sampled && gsh(addr(gs.shared)) && (dbModeIs(db, DBModeWAL) ==> gs.write.state == RWMutexStateExclusive) ; then sampled = true
+//@   on call DB.PageN assert sampled && gsh(addr(gs.shared)) && (dbModeIs(db, DBModeWAL) ==> gs.write.state == RWMutexStateExclusive)
+//@   on call OS.Open op "EXPORT:DB" assert sampled && exportReadLocks(gs)
+//@   on call OS.Open op "EXPORT:WAL" assert sampled && exportReadLocks(gs)
+//@   on call os.File.Seek assert !sought && !readok && arg2 == 0 &&
+//@        (has(walFrameOffsets, pgno) ? arg0 == walFile && arg1 == walFrameOffsets[pgno] + 24 : arg0 == dbFile && arg1 == int64(pgno - 1) * int64(pageSize)) ; then sought = (ret1 == nil)
+//@   on call io.ReadFull assert sought && !readok && sameArray(arg1, pageData) && len(arg1) == int(pageSize) && exportReadLocks(gs) ; then readok = (ret1 == nil), sought = false
+//@   on call io.Writer.Write assert readok && (pageN == 0xffffffff || written == int(pgno) - 1) && sameArray(arg0, pageData) && len(arg0) == int(pageSize) ; then written = (ret1 == nil ? written + 1 : written), readok = false
+//@   on call GuardSet.Unlock assert arg0 == gs && !unlocked ; then unlocked = true
+//@   loop 1 modifies contents(walFrameOffsets)
+//@   loop 1 invariant walFrameOffsets != nil
+//@   loop 2 modifies contents(pageData), sought, readok, written
+//@   loop 2 invariant sampled && !sought && !readok && !unlocked && exportReadLocks(gs) && dbFile != nil && len(pageData) == int(pageSize)
+//@   loop 2 invariant pageN == 0xffffffff || (pgno >= 1 && pgno - 1 <= pageN && written == int(pgno) - 1)
+//@   ensures   unlocked
+//@   ensures   err == nil ==> sampled && written == int(pageN)
+//@   ensures   posOf(db) == old(posOf(db)) && aload(db.pageN) == old(aload(db.pageN)) && unchanged(db.pageSize, db.wal.frameOffsets)
+//@   ensures   sampled ==> result0 == posOf(db)
+//@   mergeexits
+//@   nopanic
